@@ -306,6 +306,7 @@ def run(ctx):
                    "both extents are the row (or both the column) dimensions" if len(set(i0)) == 1 else f"mixed row/column indices {i0}", c, required=len(i0) == 2)
     # eigenvectors are columns: iterate over V.T ; right singular vectors are rows of vh, conjugated
     _decomposition_conventions(ctx, ck)
+    _hermitian_sign_pairing(ctx, ck)
     r_live(ctx, ck, "tol")
     r_effect_free(ctx, ck, ["choi_mat"])
 
@@ -442,6 +443,37 @@ def run(ctx):
                f"`{unparse(dflt)[:60]}`" if is_table else
                f"`{unparse(dflt)[:70]}` is the 2-vector (sqrt r, sqrt c): _expand_dim reads a 2-vector as (input, output) dimension of square spaces, so the table becomes "
                "[[sqrt r, sqrt c], [sqrt r, sqrt c]] and every r x c Choi matrix with r != c is rejected", dflt, required=is_table or is_vector)
+    # _expand_dim: a dims vector [d_in, d_out] -- written as a list, a row or a column -- stands for square spaces: it is flattened and repeated as
+    # the two ROWS of the table.  Broadcasting the unflattened value against (2, 2) repeats a column vector along the wrong axis.
+    ed = m.func("channel_dim._expand_dim", must=False)
+    if ed is not None:
+        flat_names = set()
+        for st in walk_no_nested(ed.node):
+            if isinstance(st, ast.Assign) and len(st.targets) == 1 and isinstance(st.targets[0], ast.Name) and isinstance(st.value, ast.Call) \
+                    and isinstance(st.value.func, ast.Attribute) and (st.value.func.attr in ("ravel", "flatten") or (st.value.func.attr == "reshape" and unparse(st.value.args[0]) in ("-1", "(-1,)"))):
+                flat_names.add(st.targets[0].id)
+        verdict, why, at = None, "vector branch not recognised", None
+        for r in walk_no_nested(ed.node):
+            if not (isinstance(r, ast.Return) and isinstance(r.value, ast.Call)):
+                continue
+            for c in ast.walk(r.value):
+                if not isinstance(c, ast.Call):
+                    continue
+                fn = getattr(c.func, "attr", getattr(c.func, "id", ""))
+                if fn in ("vstack", "array", "stack") and c.args and isinstance(c.args[0], (ast.List, ast.Tuple)) and len(c.args[0].elts) == 2 \
+                        and all(isinstance(e, ast.Name) for e in c.args[0].elts) and len({e.id for e in c.args[0].elts}) == 1:
+                    nm = c.args[0].elts[0].id
+                    if nm in flat_names:
+                        verdict, why, at = (True if verdict is None else verdict), f"rows ({nm}, {nm}) with {nm} flattened", r
+                    else:
+                        verdict, why, at = False, f"`{unparse(r)[:60]}` repeats `{nm}` without flattening it first", r
+                if fn in ("broadcast_to", "tile", "repeat", "broadcast_arrays") and c.args:
+                    src = {y.id for y in ast.walk(c.args[0]) if isinstance(y, ast.Name)}
+                    if not (src & flat_names):
+                        verdict, at = False, r
+                        why = (f"`{unparse(c)[:60]}` (line {c.lineno}) broadcasts the dims as given: a column [[m], [n]] is repeated along the columns, [[m, m], [n, n]], instead of being "
+                               "read as the vector (m, n) -> [[m, n], [m, n]]; with m != n the table no longer matches the Choi matrix")
+        ctx.ob("R-KIND", ed, "a dims vector in any orientation is flattened, then repeated as the two rows of the table", verdict, why, at, required=verdict is not None)
     Nd = Normalizer(m, cd, inline=False)
     # (rows, cols) of a Kraus operator are (out, in)
     n_sh = 0
@@ -619,3 +651,64 @@ def _decomposition_conventions(ctx, f):
                         ctx.ob("R-COV", f, "right singular vectors are conjugated before unvec", cj,
                                "B_i is built from conj(vh row) so that A X B^+ reproduces the map" if cj else
                                f"right operators {show(elt)} use vh rows without conjugation (wrong for complex Choi matrices)", n)
+
+
+def _hermitian_sign_pairing(ctx, f):
+    """Hermitian, non-PSD Choi matrix: J = sum_k lambda_k v_k v_k^+ gives the pairs (A_k, B_k) = (sqrt|lambda_k| unvec v_k, sign(lambda_k) A_k) over the KEPT
+    eigenvalues |lambda_k| > tol.  The sign attached to an operator has to be the sign of that operator's own eigenvalue: the signs are
+    enumerated through the same selection as the operators.  A count of negative eigenvalues taken over ALL eigenvalues (eigvals < 0) includes
+    the numerically-zero ones (-1e-16) that were dropped from the operators, and shifts the sign boundary."""
+    m = ctx.model
+    key = "Hermitian branch: B_k = sign(lambda_k) A_k, signs enumerated through the same |lambda| > tol selection as the operators"
+    # the filter of the operator list
+    def thr_of(t):
+        """threshold T of a test `abs(x) > T` / `T < abs(x)` (None otherwise)"""
+        for c in ast.walk(t):
+            if isinstance(c, ast.Compare) and len(c.ops) == 1:
+                l, r = c.left, c.comparators[0]
+                isabs = lambda e: isinstance(e, ast.Call) and getattr(e.func, "id", getattr(e.func, "attr", "")) in ("abs", "absolute", "fabs")  # noqa: E731
+                if isabs(l) and isinstance(c.ops[0], (ast.Gt, ast.GtE)):
+                    return unparse(r)
+                if isabs(r) and isinstance(c.ops[0], (ast.Lt, ast.LtE)):
+                    return unparse(l)
+        return None
+    sel = None
+    for n in walk_no_nested(f.node):
+        if isinstance(n, ast.ListComp) and n.generators and n.generators[0].ifs and "eig" in unparse(n.generators[0].iter) and "sqrt" in unparse(n.elt):
+            sel = thr_of(n.generators[0].ifs[0])
+    signs = [n for n in walk_no_nested(f.node) if isinstance(n, ast.ListComp) and any(isinstance(c, ast.Call) and getattr(c.func, "attr", "") == "sign" for c in ast.walk(n.elt))]
+    if sel is None:
+        ctx.ob("R-ENUM", f, key, None, "the eigenvalue selection of the operator list was not recognised", required=False)
+        return
+    thr = sel
+    if signs:
+        n = signs[0]
+        g = n.generators[0]
+        it = g.iter
+        ok = None
+        why = f"`{unparse(n)[:80]}`"
+        if isinstance(it, ast.Call) and getattr(it.func, "id", "") == "zip" and len(it.args) == 2:
+            a0 = it.args[0]
+            same_filter = (isinstance(a0, ast.Call) and getattr(a0.func, "id", "") == "filter" and a0.args and thr_of(a0.args[0]) == thr) or \
+                (isinstance(a0, (ast.ListComp, ast.GeneratorExp)) and a0.generators[0].ifs and thr_of(a0.generators[0].ifs[0]) == thr)
+            unfiltered = isinstance(a0, ast.Name) and not g.ifs
+            if same_filter:
+                ok = True
+            elif unfiltered:
+                ok = False
+                why = (f"`{unparse(n)[:80]}` zips ALL eigenvalues with the kept operators: as soon as one eigenvalue is dropped (|lambda| <= tol) every later operator gets its "
+                       "neighbour's sign")
+        elif g.ifs and thr_of(g.ifs[0]) == thr:
+            ok = True
+        ctx.ob("R-ENUM", f, key, ok, "zip(filter(|lambda| > tol, eigvals), A)" if ok else why, n, required=ok is not None)
+        return
+    # no sign(): look for a count of negative eigenvalues used as a split point
+    cnt = [c for c in walk_no_nested(f.node) if isinstance(c, ast.Call) and getattr(c.func, "attr", getattr(c.func, "id", "")) in ("count_nonzero", "sum")
+           and c.args and isinstance(c.args[0], ast.Compare) and isinstance(c.args[0].ops[0], (ast.Lt, ast.Gt)) and isinstance(c.args[0].left, ast.Name)
+           and isinstance(c.args[0].comparators[0], ast.Constant) and c.args[0].comparators[0].value == 0]
+    if cnt:
+        ctx.ob("R-ENUM", f, key, False,
+               f"`{unparse(cnt[0])[:60]}` (line {cnt[0].lineno}) counts the negative eigenvalues among ALL of them, while the operators keep only |lambda| > {thr or 'tol'}: a null "
+               "eigenvalue returned as -1e-16 is counted but has no operator, so the first positive-weight operator is negated (rank-deficient Hermiticity-preserving maps)", cnt[0])
+    else:
+        ctx.ob("R-ENUM", f, key, None, "no sign(lambda) pairing found in the Hermitian branch", required=False)
